@@ -734,7 +734,14 @@ class TransferCoordinatorController:
         try:
             transfer_coordinator = None
             for transfer_coordinator in self.tracked_transfer_coordinators:
-                transfer_coordinator.result()
+                try:
+                    transfer_coordinator.result()
+                except Exception:
+                    # A general exception could have been thrown because
+                    # of result(). We just want to ignore this and continue
+                    # with the remaining transfers because we at least know
+                    # that the transfer coordinator has completed.
+                    pass
         except KeyboardInterrupt:
             logger.debug('Received KeyboardInterrupt in wait()')
             # If Keyboard interrupt is raised while waiting for
@@ -746,9 +753,3 @@ class TransferCoordinatorController:
                     transfer_coordinator,
                 )
             raise
-        except Exception:
-            # A general exception could have been thrown because
-            # of result(). We just want to ignore this and continue
-            # because we at least know that the transfer coordinator
-            # has completed.
-            pass
